@@ -1,6 +1,6 @@
 ---------------------------- MODULE Gen_Nowiki ----------------------------
 EXTENDS Nowiki, Json
-CONSTANTS MaxTok, Mode   \* Mode = "nowiki" | "comment"
+CONSTANTS MaxTok, Mode, Depth   \* Mode = "nowiki" | "comment" | "nested" (frames up to Depth deep)
 
 \* token alphabet for payloads (each token a sequence of characters)
 Tokens == { <<"{", "{", "T", "1", "|", "x", "}", "}">>, <<"{", "{", "{", "1", "}", "}", "}">>, <<"[", "[", "a", "]", "]">>,
@@ -22,14 +22,27 @@ Docs == { <<[k |-> "t", s |-> t1], [k |-> "c", s |-> c1], [k |-> "t", s |-> t2]>
         \cup { <<[k |-> "t", s |-> <<"{", "{", "T", "1", "|">> \o t1], [k |-> "c", s |-> c1], [k |-> "t", s |-> <<"q", "}", "}">>]>> :
                  t1 \in {<<"a", "NL">>, <<>>}, c1 \in CommentPayloads }
 
+\* payloads of the nested universe: between them they hold every character of the entity table,
+\* a template call, a link, table / list / heading markup, a magic word, comment delimiters;
+\* with MaxTok >= 1 every payload of <= MaxTok tokens is used as well
+NestPayloads == { <<"{", "{", "T", "1", "|", "x", "}", "}", "|", "}">>, <<"[", "[", "a", "]", "]", "=", "=">>,
+                  <<"_", "_", "T", "O", "C", "_", "_", "<", "!", "-", "-">>, <<"*", "#", ":", ";", "\"", "'", "'", "-", "-", ">">> }
+                \cup (IF MaxTok >= 1 THEN Payloads ELSE {})
+NestCases(z) == UNION { { [fs |-> fs, o |-> o, c |-> c] : o \in OptsFor(fs), c \in NestPayloads } : fs \in NestStacks(Depth) }
+
 VARIABLE case
-Init == IF Mode = "nowiki" THEN case \in { [ctx |-> x, c |-> c] : x \in Contexts, c \in Payloads }
+Init == IF Mode = "nested" THEN case \in NestCases(0)
+        ELSE IF Mode = "nowiki" THEN case \in { [ctx |-> x, c |-> c] : x \in Contexts, c \in Payloads }
         ELSE case \in { [doc |-> d] : d \in Docs }
 Next == UNCHANGED case
 Spec == Init /\ [][Next]_case
 
-Laws == Mode = "nowiki" => Recoverable(case.c) /\ Inert(case.c)
-Emit == IF Mode = "nowiki"
+Laws == Mode \in {"nowiki", "nested"} => Recoverable(case.c) /\ Inert(case.c)
+Emit == IF Mode = "nested"
+        THEN PrintT(<<"CASE", ToJson([fs |-> case.fs, o |-> case.o, c |-> case.c, q |-> Quote(case.c), input |-> NInput(case.fs, case.c),
+                                      expanded |-> NExpanded(case.fs, case.o, case.c), exact |-> ~Ambiguous(case.fs),
+                                      must |-> Demand(case.fs, case.o, case.c)])>>)
+        ELSE IF Mode = "nowiki"
         THEN PrintT(<<"CASE", ToJson([ctx |-> case.ctx, input |-> Input(case.ctx, case.c), expanded |-> Expanded(case.ctx, case.c),
                                       path |-> LeafPath(case.ctx), leaf |-> LeafText(case.ctx, case.c), c |-> case.c])>>)
         ELSE PrintT(<<"CASE", ToJson([written |-> Written(case.doc), stripped |-> Strip(case.doc)])>>)
